@@ -26,3 +26,53 @@ def _read_index_from_selfies(symbol_iter: 'iter[tuple[int,str]]', n_symbols: int
                     + sym_at(symbol_iter, old(iter_pos(symbol_iter)), 2)), tag="C16:read3")
     ensures(isinstance(result, int) and 0 <= result and result < 4096, tag="C16:Qrange")
     unroll("for _ in range(n_symbols)", 3)
+
+
+@spec
+def ring_ok(mol, r):
+    # a recorded ring request (left atom, right atom, (order, (left stereo, right stereo))) between atoms of mol
+    return (typed(r, 'tuple[Atom,Atom,tuple[int,tuple[str|None,str|None]]]')
+            and typed(r[0].index, 'int') and typed(r[1].index, 'int')
+            and 0 <= r[0].index and r[0].index <= r[1].index and r[1].index < len(mol._atoms)
+            and mol._atoms[r[0].index] == r[0] and mol._atoms[r[1].index] == r[1]
+            and not fresh(r[0]) and not fresh(r[1])
+            and typed(r[0].element, 'str') and typed(r[0].charge, 'int') and typed(r[0].h_count, 'int|None')
+            and typed(r[1].element, 'str') and typed(r[1].charge, 'int') and typed(r[1].h_count, 'int|None')
+            and 1 <= r[2][0] and r[2][0] <= 3)
+
+
+@contract("selfies/decoder.py::_form_rings_bilocally", props=["C01", "C02", "C08"])
+def _form_rings_bilocally(mol: 'MolecularGraph', rings: list):
+    requires(table_ok(_current_constraints))
+    requires(_current_constraints != mol._bond_dict and _current_constraints != mol._delocal_subgraph)
+    requires(wf(mol) and wf_basic(mol) and atoms_ok(mol) and val_ok(mol) and bonds_ok(mol) and adj_ok(mol))
+    requires(rings != mol._atoms and rings != mol._adj_list and rings != mol._bond_counts
+             and rings != mol._ring_bond_flags and rings != mol._roots
+             and all(rings != mol._adj_list[i] for i in range(len(mol._atoms))))
+    requires(all(ring_ok(mol, rings[j]) for j in range(len(rings))))
+    opaque("bonds_ok", "adj_ok")
+    modifies(mol._bond_dict, mol._bond_counts, mol._ring_bond_flags,
+             each(mol._adj_list[i] for i in range(len(mol._atoms))),
+             each(mol._bond_dict[k] for k in anyvalue() if k in mol._bond_dict))
+    ensures(wf(mol) and atoms_ok(mol) and bonds_ok(mol) and adj_ok(mol), tag="C01:rings-keep-graph-well-formed")
+    ensures(val_ok(mol), tag="C01:rings-respect-valence")
+    ensures(len(mol._atoms) == old(len(mol._atoms)), tag="C01:rings-add-no-atoms")
+    invariant("for latom, ratom, bond_info in rings",
+              wf(mol) and wf_basic(mol) and atoms_ok(mol) and bonds_ok(mol) and adj_ok(mol)
+              and unchanged_structure(mol), tag="graph")
+    invariant("for latom, ratom, bond_info in rings", val_ok(mol), tag="valence")
+    invariant("for latom, ratom, bond_info in rings",
+              all(implies(old(k in mol._bond_dict), (k in mol._bond_dict) and mol._bond_dict[k] == old(mol._bond_dict[k]))
+                  for k in anyvalue())
+              and all(implies((k in mol._bond_dict) and not old(k in mol._bond_dict), fresh(mol._bond_dict[k]))
+                      for k in anyvalue()), tag="old-bonds-kept-new-bonds-fresh")
+    invariant("for latom, ratom, bond_info in rings",
+              table_ok(_current_constraints) and _current_constraints == old(_current_constraints)
+              and same_dict_state(_current_constraints), tag="table-untouched")
+    invariant("for latom, ratom, bond_info in rings",
+              typed(rings_made, 'list') and fresh(rings_made) and len(rings_made) == len(mol._atoms)
+              and all(typed(rings_made[i], 'int') and 0 <= rings_made[i] and rings_made[i] <= len(mol._adj_list[i])
+                      for i in range(len(mol._atoms))), tag="insert-positions")
+    invariant("for latom, ratom, bond_info in rings",
+              all(ring_ok(mol, rings[j]) for j in range(len(rings))) and len(rings) == old(len(rings)),
+              tag="requests-unchanged")
